@@ -21,6 +21,9 @@ func (self ValueRange) Display() (string, *Interrupt) {
 }
 
 func (self ValueRange) IsEqual(other Value) (bool, *Interrupt) {
+	if other.Kind() != self.Kind() {
+		return false, nil // values of different kinds (elements of an `[any]`, content of a `{ ? }`) are not equal
+	}
 	otherRange := other.(ValueRange)
 	return *self.Start == *otherRange.Start && *self.End == *otherRange.End &&
 		self.EndIsInclusive == otherRange.EndIsInclusive, nil
